@@ -99,6 +99,13 @@ theorem atomsWith_sound (env : Env) (auth : Str) (cv : String → List SExpr →
   | other i s =>
     intro p as h
     cases p <;> simp [atomsWith] at h
+  | decEq d a b =>
+    intro p as h
+    cases p <;> simp [atomsWith] at h
+    subst h; simp [evalBWith, satB, mkAtom_holds]
+  | decodes d a =>
+    intro p as h
+    cases p <;> simp [atomsWith] at h
 
 theorem atoms0_sound (env : Env) (auth : Str) (b : BExpr) (p : Bool) (as : List Atom)
     (h : atoms0 p b = some as) : evalB0 env auth b = satB env auth p as :=
@@ -164,12 +171,26 @@ theorem protectedBody_sound {σ : Type} (hs : List Helper) (env : Env) (auth : S
     cases st with
     | rejectIf g =>
       simp only [protectedBody] at h
-      simp [execBody, guardCmp_sound hs env auth g c h, hrel]
+      cases hg : guardCmp hs g with
+      | some c' =>
+        simp only [hg, Option.some.injEq] at h
+        subst h
+        simp [execBody, guardCmp_sound hs env auth g c' hg, hrel]
+      | none =>
+        simp only [hg] at h
+        by_cases hp : pureB g = true
+        · simp only [hp, ↓reduceIte] at h
+          simp only [execBody]
+          split
+          · rfl
+          · exact ih s h
+        · simp [hp] at h
     | nop src =>
       simp only [protectedBody] at h
       simp only [execBody]
       exact ih s h
     | work id src => simp [protectedBody] at h
+    | ensureModuleAcc n src => simp [protectedBody] at h
     | forward needRoute targets m' =>
       simp only [protectedBody] at h
       cases targets with
@@ -376,5 +397,16 @@ theorem accAddress_upper (cfg : AddrCfg) (g : Str) (hg : lowerAsciiStr g = true)
   have hdec : bechDecode (g.map upperC) = bechDecode g := by
     simp only [bechDecode, hfront, map_lower_upper g hnu, map_lower_id g hnu]
   simp only [accAddress, hsp, hdec]
+
+/-! ## `common.BytesToAddress` (round 4) -/
+
+theorem evmAddr_suffix (pad g : List Nat) (hg : g.length = 20) : evmAddr (pad ++ g) = g := by
+  have h1 : (pad ++ g).length - 20 = pad.length := by simp [List.length_append, hg]
+  simp only [evmAddr, h1, List.drop_left', hg]
+  simp
+
+theorem evmAddr_length (bz : List Nat) : (evmAddr bz).length = 20 := by
+  simp only [evmAddr, List.length_append, List.length_replicate, List.length_drop]
+  omega
 
 end FxVerif.Model.C16
